@@ -161,7 +161,7 @@ def run_path(I: Interp, finfo: FuncInfo, con: Contract):
         st.assume(invariant_formula(I, nm, sf))
     st.old_stack.pop()
     if st.cfg.get("check_vacuity"):
-        if not st.consistent(5000):
+        if not st.consistent(5000, full=True):
             st.cfg["vacuous"] = True
             raise PathEnd()
     ret = None
@@ -210,6 +210,10 @@ def run_path(I: Interp, finfo: FuncInfo, con: Contract):
         for nm in con.invariants:
             st.oblige("inv", nm, invariant_formula(I, nm, sf))
         check_frame(I, st.entry_heap, st.alloc_entry, con.modifies, sf, "frame", "exit")
+        if con.preserves:
+            from .calls import preserve_formulas
+            for n_, f_ in enumerate(preserve_formulas(I, con.preserves, sf, st.entry_heap)):
+                st.oblige("frame", f"preserves{n_}", f_)
         if not con.allocates and not z3.eq(smt.simp(st.alloc), smt.simp(st.alloc_entry)):
             # objects were allocated: they must not be reachable afterwards unless the contract says `allocates`;
             # conservatively require the declaration
@@ -412,7 +416,10 @@ def verify_fuc(key: str, cfg: dict) -> FucResult:
         work = [[]]
         timeout_ms = cfg.get("timeout_ms", 10000)
         first = True
+        budget = cfg.get("fuc_budget_s", 240)
         while work:
+            if time.time() - t0 > budget:
+                raise Refuse(f"time budget of {budget}s for one function exceeded after {res.paths} paths (split the function or simplify its contract)")
             trace = work.pop()
             pcfg = dict(cfg)
             pcfg["contract"] = con
@@ -436,7 +443,10 @@ def verify_fuc(key: str, cfg: dict) -> FucResult:
                 raise Refuse(f"more than {con.max_paths} paths in {key}")
             for ob in st.obligations:
                 ob.path = st.path_id
-                discharge(ob, st, timeout_ms, cfg.get("cvc5", True), cfg.get("both", False))
+                if time.time() - t0 > budget * 1.5:
+                    ob.status, ob.detail, ob.backend = "unknown", "function time budget exhausted", "-"
+                else:
+                    discharge(ob, st, timeout_ms, cfg.get("cvc5", True), cfg.get("both", False))
                 res.obligations.append({"name": ob.name, "kind": ob.kind, "label": ob.label, "line": ob.line, "path": ob.path,
                                         "status": ob.status, "backend": ob.backend, "secs": round(ob.secs, 4),
                                         "detail": ob.detail, "model": ob.model,
